@@ -142,7 +142,7 @@ class Bench:
     def run(self):
         self._stop = False
         # the primary domain (cap / termination) is the one with most agents
-        self._primary = max(self.agents, key=lambda d: (len(self.agents[d]), d == "sys"))
+        self._primary = getattr(self, "_force_primary", None) or max(self.agents, key=lambda d: (len(self.agents[d]), d == "sys"))
         gens = {d: [self._gen(d)] for d in self.agents if self.agents[d] or d == self._primary}
         self.sim = MonitoredSimulator(self.dut, gens, clocks=self.clocks,
                                       special_overrides=self.overrides)
